@@ -19,10 +19,9 @@ SPEC = dict(
          "input records",
     partial="PROVED about the executed model (the transition system the driver runs): race freedom of every schedule and "
             "total = serial sum over the enabled forces for every thread count, caching path, enabled mask and schedule, in "
-            "subsystem states satisfying ThreadSafe (always true right after realizeTopology). NOT inside the model: the "
-            "non-parallel task on >= 2 workers (setNumberOfThreads after realizeTopology without parallel forces) — there the "
-            "model only proves the state is reachable and exhibits wrong totals in a 3-step mini-model; the implementation "
-            "is judged by the P line alone (key CalcForces.threads_after_topology.nonparallel_task). PREDICATE-ONLY: which "
+            "every subsystem state reachable by any order of setNumberOfThreads / realizeTopology calls (threadSafe_reachable; "
+            "the pre-fix transition that ran the non-parallel task on >= 2 workers is kept as a historical witness, key "
+            "CalcForces.threads_after_topology.nonparallel_task stays as regression). PREDICATE-ONLY: which "
             "caching path the implementation really took is not observed (the harness steers it; q/u-dependent integer forces "
             "make a stale cache or a skipped evaluation visible in the total); absence of races on the real machine rests on "
             "slow-force streams with seeded yields, i.e. on OS interleavings. NOT BUILT (DESIGN promised them): hook traces "
